@@ -46,10 +46,17 @@ OnAcl(e) ==
       bad == e.err # "" \/ e.denied # mustDeny \/ (e.denied /\ e.forwarded) \/ (~e.denied /\ ~e.forwarded)
              \/ (e.forwarded /\ e.seen # final)
   IN FlagAll(IF bad THEN {<<l, "acl">>} ELSE {})
+\* every namespace leaf of a root type populated in ONE message: after the translation a descriptor-driven scan (which also opens
+\* event blobs) finds no local name at any namespace field and as many remote names as local ones went in - nothing missed,
+\* nothing lost
+OnPopulate(e) ==
+  FlagAll((IF e.err # "" THEN {<<l, "error">>} ELSE {})
+          \cup (IF e.err = "" /\ (e.outLocal # 0 \/ e.outRemote # e.inLocal \/ e.outOther # 0) THEN {<<l, "untranslated">>} ELSE {}))
 Next == /\ l <= Len(Trace) /\ l' = l + 1
         /\ LET e == Trace[l] IN
            CASE e.ev = "Oblig" /\ e.built -> OnOblig(e)
              [] e.ev = "Acl" /\ e.built -> OnAcl(e)
+             [] e.ev = "Populate" /\ e.built -> OnPopulate(e)
              [] OTHER -> TRUE
 Spec == l = 1 /\ [][Next]_l
 Report == PrintT(<<"OBS_VIOLATIONS", TLCGet(1)>>) /\ PrintT(<<"OBS_TRACE_LEN", Len(Trace)>>)
